@@ -63,15 +63,12 @@ class Explorer:
         self._multi_assigned = None
 
     def multi_assigned(self):
-        """Bool locals assigned a non-literal after their declaration: not trackable."""
+        """Bool locals that may be written through a reference or pointer: not trackable.
+        (A non-literal assignment just makes the value unknown from that point on.)"""
         if self._multi_assigned is None:
             bad = set()
             for n in self.f.walk():
-                if n["k"] == "assign":
-                    l = self.f.deref(n["c"][0])
-                    if l is not None and l["k"] == "ref" and _literal_bool(self.f, n["c"][1]) is None:
-                        bad.add(l["n"])
-                elif n["k"] in ("call", "mcall", "ocall", "construct"):
+                if n["k"] in ("call", "mcall", "ocall", "construct"):
                     # passed by non-const reference / pointer => may be written
                     pm = n.get("pm", "")
                     args = self.f.call_args(n)
@@ -101,10 +98,10 @@ class Explorer:
                 env[("enum", self.enum_field[0])] = frozenset(vals if vals is not None else self.enum_field[1])
         if not self.track_env:
             return env
-        if n["k"] == "assign" and n.get("op") == "=":
+        if n["k"] == "assign":
             l = f.deref(n["c"][0])
             if l is not None and l["k"] == "ref" and l.get("dk") == "local":
-                v = _literal_bool(f, n["c"][1])
+                v = _literal_bool(f, n["c"][1]) if n.get("op") == "=" else None
                 env = dict(env)
                 if v is None:
                     env.pop(l["n"], None)
